@@ -286,7 +286,9 @@ def rand_script(rng):
             d = bytes(rng.getrandbits(8) for _ in range(rng.choice([0, 255, 256, 520, 521])))
             out += b'\x4d' + len(d).to_bytes(2, 'little') + d
         elif c < 0.5:
-            out += rng.choice([b'\x4c', b'\x4d\x01', b'\x4e\x01\x00', b'\x05\x01', b'\x4c\x05\x01'])
+            out += rng.choice([b'\x4c', b'\x4d\x01', b'\x4e\x01\x00', b'\x05\x01', b'\x4c\x05\x01', b'\x4d\x00',
+                               b'\x4d', b'\x4e\x00', b'\x4e\x00\x00', b'\x4e\x00\x00\x00', b'\x4e', b'\x4c\x00',
+                               b'\x4d\x00\x00', b'\x4e\x00\x00\x00\x00'])
         else:
             out += bytes([rng.choice([0x00, 0x4f, 0x51, 0x52, 0x53, 0x60, 0x61, 0x63, 0x64, 0x67, 0x68, 0x69, 0x6a,
                                       0x6b, 0x6c, 0x6d, 0x6e, 0x6f, 0x70, 0x71, 0x72, 0x73, 0x74, 0x75, 0x76, 0x77,
@@ -303,7 +305,9 @@ def rand_value(rng, sh, depth=0):
     if k == 'int':
         lo, hi = kw.get('lo'), kw.get('hi')
         r = rng.random()
-        if r < 0.4:
+        if r < 0.25:
+            v = rng.randint(0, 255)
+        elif r < 0.4:
             v = rng.choice(INTERESTING_INTS)
             if rng.random() < 0.3:
                 v = -v
